@@ -451,6 +451,377 @@ theorem mesh_nearest_eq_bruteforce (tri : Nat → V3 K × V3 K × V3 K) (tree : 
   exact h
 end meshq
 
+/-! ## `findNearestPointToFace` returns the closest point of the face (KKT + convexity, all seven regions) -/
+section tmin
+variable {K : Type} [Field K] [LinearOrder K] [IsStrictOrderedRing K]
+
+/-- the `(s,t)` part of `triNearest` as a function of the five scalars -/
+def stOf (a b c d e : K) : K × K :=
+  let det := a * c - b * b
+  let s := b * e - c * d
+  let t := b * d - a * e
+  let le (x y : K) : Bool := !decide (y < x)
+  let ge (x y : K) : Bool := !decide (x < y)
+  let edgeT : K := if ge e 0 then 0 else (if ge (-e) c then 1 else -e / c)
+  let edgeS : K := if ge d 0 then 0 else (if ge (-d) a then 1 else -d / a)
+  if le (s + t) det then
+    if s < 0 then
+      if t < 0 then
+        if d < 0 then ((if ge (-d) a then 1 else -d / a), 0) else (0, edgeT)
+      else (0, edgeT)
+    else if t < 0 then (edgeS, 0)
+    else (s * (1 / det), t * (1 / det))
+  else
+    if s < 0 then
+      let temp0 := b + d
+      let temp1 := c + e
+      if temp0 < temp1 then
+        let numer := temp1 - temp0
+        let denom := a - 2 * b + c
+        let s' := if ge numer denom then 1 else numer / denom
+        (s', 1 - s')
+      else (0, if le temp1 0 then 1 else (if ge e 0 then 0 else -e / c))
+    else if t < 0 then
+      let temp0 := b + e
+      let temp1 := a + d
+      if temp0 < temp1 then
+        let numer := temp1 - temp0
+        let denom := a - 2 * b + c
+        let t' := if ge numer denom then 1 else numer / denom
+        (1 - t', t')
+      else ((if le temp1 0 then 1 else (if ge d 0 then 0 else -d / a)), 0)
+    else
+      let numer := c + e - b - d
+      let s' := if le numer 0 then 0 else
+        (let denom := a - 2 * b + c; if ge numer denom then 1 else numer / denom)
+      (s', 1 - s')
+
+theorem triNearest_st (v1 v2 v3 p : V3 K) :
+    ((triNearest v1 v2 v3 p).2.1, (triNearest v1 v2 v3 p).2.2) =
+      stOf (V3.normSq (V3.sub v2 v1)) (V3.dot (V3.sub v2 v1) (V3.sub v3 v1)) (V3.normSq (V3.sub v3 v1))
+        (V3.dot (V3.sub v2 v1) (V3.sub v1 p)) (V3.dot (V3.sub v3 v1) (V3.sub v1 p)) := rfl
+
+/-- KKT conditions of `min Q` over the triangle `s,t ≥ 0, s+t ≤ 1` at `(s,t)`, tested at the three vertices -/
+def KKT (a b c d e s t : K) : Prop :=
+  0 ≤ -((a * s + b * t + d) * s) - (b * s + c * t + e) * t ∧
+  0 ≤ (a * s + b * t + d) * (1 - s) - (b * s + c * t + e) * t ∧
+  0 ≤ -((a * s + b * t + d) * s) + (b * s + c * t + e) * (1 - t)
+
+theorem kkt_V0 (a b c d e : K) (hd : 0 ≤ d) (he : 0 ≤ e) : KKT a b c d e 0 0 := by
+  refine ⟨?_, ?_, ?_⟩ <;> nlinarith
+theorem kkt_V1 (a b c d e : K) (h1 : a + d ≤ 0) (h2 : a + d ≤ b + e) : KKT a b c d e 1 0 := by
+  refine ⟨?_, ?_, ?_⟩ <;> nlinarith
+theorem kkt_V2 (a b c d e : K) (h1 : c + e ≤ 0) (h2 : c + e ≤ b + d) : KKT a b c d e 0 1 := by
+  refine ⟨?_, ?_, ?_⟩ <;> nlinarith
+theorem kkt_Es0 (a b c d e u : K) (hc : 0 < c) (hu : c * u = -e) (hs0 : b * e - c * d ≤ 0) : KKT a b c d e 0 u := by
+  have e1 : c * (b * u + d) = -(b * e - c * d) := by linear_combination b * hu
+  have g : 0 ≤ b * u + d := by
+    by_contra hn; push Not at hn; have := mul_neg_of_pos_of_neg hc hn; linarith
+  have h0 : b * 0 + c * u + e = 0 := by linarith
+  have h1 : a * 0 + b * u + d = b * u + d := by ring
+  refine ⟨?_, ?_, ?_⟩ <;> (rw [h0, h1]; nlinarith)
+theorem kkt_Et0 (a b c d e u : K) (ha : 0 < a) (hu : a * u = -d) (ht0 : b * d - a * e ≤ 0) : KKT a b c d e u 0 := by
+  have e1 : a * (b * u + e) = -(b * d - a * e) := by linear_combination b * hu
+  have g : 0 ≤ b * u + e := by
+    by_contra hn; push Not at hn; have := mul_neg_of_pos_of_neg ha hn; linarith
+  have h0 : a * u + b * 0 + d = 0 := by linarith
+  have h1 : b * u + c * 0 + e = b * u + e := by ring
+  refine ⟨?_, ?_, ?_⟩ <;> (rw [h0, h1]; nlinarith)
+theorem kkt_Ehyp (a b c d e s t : K) (hden : 0 < a - 2 * b + c) (hst : s + t = 1)
+    (hs : (a - 2 * b + c) * s = c + e - b - d) (hcond : a * c - b * b ≤ (b * e - c * d) + (b * d - a * e)) : KKT a b c d e s t := by
+  have ht : t = 1 - s := by linarith
+  subst ht
+  have e1 : (a - 2 * b + c) * (a * s + b * (1 - s) + d) = (a * c - b * b) - ((b * e - c * d) + (b * d - a * e)) := by
+    linear_combination (a - b) * hs
+  have g : a * s + b * (1 - s) + d ≤ 0 := by
+    by_contra hn; push Not at hn; have := mul_pos hden hn; linarith
+  have e2 : b * s + c * (1 - s) + e = a * s + b * (1 - s) + d := by linarith
+  refine ⟨?_, ?_, ?_⟩ <;> (rw [e2]; nlinarith)
+theorem kkt_I (a b c d e i : K) (hi : (a * c - b * b) * i = 1) :
+    KKT a b c d e ((b * e - c * d) * i) ((b * d - a * e) * i) := by
+  have g1 : a * ((b * e - c * d) * i) + b * ((b * d - a * e) * i) + d = 0 := by linear_combination (-d) * hi
+  have g2 : b * ((b * e - c * d) * i) + c * ((b * d - a * e) * i) + e = 0 := by linear_combination (-e) * hi
+  refine ⟨?_, ?_, ?_⟩ <;> (rw [g1, g2]; simp)
+
+
+
+
+theorem quad_form_nonneg (a b c x y : K) (ha : 0 < a) (hdet : 0 < a * c - b * b) : 0 ≤ a * x * x + 2 * b * x * y + c * y * y := by
+  have h : a * (a * x * x + 2 * b * x * y + c * y * y) = (a * x + b * y) * (a * x + b * y) + (a * c - b * b) * (y * y) := by ring
+  have h2 : 0 ≤ a * (a * x * x + 2 * b * x * y + c * y * y) := by
+    rw [h]; exact add_nonneg (mul_self_nonneg _) (mul_nonneg hdet.le (mul_self_nonneg y))
+  by_contra hn; push Not at hn
+  have := mul_neg_of_pos_of_neg ha hn
+  linarith
+
+/-- convexity at a point `(sv,tv)`: `∇Q(v)·(m − v) ≤ 0` for the unconstrained minimiser `m = (s0,t0)/det`, written without
+division: `gs·(s0 − sv·det) + gt·(t0 − tv·det) ≤ 0` -/
+theorem grad_dot (a b c d e sv tv : K) (ha : 0 < a) (hdet : 0 < a * c - b * b) :
+    (a * sv + b * tv + d) * ((b * e - c * d) - sv * (a * c - b * b))
+      + (b * sv + c * tv + e) * ((b * d - a * e) - tv * (a * c - b * b)) ≤ 0 := by
+  have id : (a * c - b * b) * ((a * sv + b * tv + d) * ((b * e - c * d) - sv * (a * c - b * b))
+      + (b * sv + c * tv + e) * ((b * d - a * e) - tv * (a * c - b * b)))
+      = -(a * ((b * e - c * d) - sv * (a * c - b * b)) * ((b * e - c * d) - sv * (a * c - b * b))
+          + 2 * b * ((b * e - c * d) - sv * (a * c - b * b)) * ((b * d - a * e) - tv * (a * c - b * b))
+          + c * ((b * d - a * e) - tv * (a * c - b * b)) * ((b * d - a * e) - tv * (a * c - b * b))) := by ring
+  have hq := quad_form_nonneg a b c ((b * e - c * d) - sv * (a * c - b * b)) ((b * d - a * e) - tv * (a * c - b * b)) ha hdet
+  by_contra hn; push Not at hn
+  have := mul_pos hdet hn
+  linarith
+
+theorem r3_V0 (a b c d e : K) (ha : 0 < a) (hdet : 0 < a * c - b * b)
+    (hs0 : b * e - c * d < 0) (ht0 : 0 ≤ b * d - a * e) (he : 0 ≤ e) : 0 ≤ d := by
+  have P := grad_dot a b c d e 0 0 ha hdet
+  by_contra hn; push Not at hn
+  have h1 := mul_pos_of_neg_of_neg hn hs0
+  have h2 := mul_nonneg he ht0
+  nlinarith
+theorem r5_V0 (a b c d e : K) (ha : 0 < a) (hdet : 0 < a * c - b * b)
+    (ht0 : b * d - a * e < 0) (hs0 : 0 ≤ b * e - c * d) (hd : 0 ≤ d) : 0 ≤ e := by
+  have P := grad_dot a b c d e 0 0 ha hdet
+  by_contra hn; push Not at hn
+  have h1 := mul_pos_of_neg_of_neg hn ht0
+  have h2 := mul_nonneg hd hs0
+  nlinarith
+theorem r3_V2 (a b c d e : K) (ha : 0 < a) (hdet : 0 < a * c - b * b)
+    (hs0 : b * e - c * d < 0) (hst : b * e - c * d + (b * d - a * e) ≤ a * c - b * b) (h : c + e ≤ 0) : c + e ≤ b + d := by
+  have P := grad_dot a b c d e 0 1 ha hdet
+  by_contra hn; push Not at hn
+  have h1 := mul_pos_of_neg_of_neg hs0 (sub_neg.mpr hn)          -- s0 * ((b+d) - (c+e)) > 0
+  have h2 := mul_nonneg (neg_nonneg.mpr h) (sub_nonneg.mpr hst)   -- (-(c+e)) * (det - (s0+t0)) ≥ 0
+  nlinarith
+theorem r5_V1 (a b c d e : K) (ha : 0 < a) (hdet : 0 < a * c - b * b)
+    (ht0 : b * d - a * e < 0) (hst : b * e - c * d + (b * d - a * e) ≤ a * c - b * b) (h : a + d ≤ 0) : a + d ≤ b + e := by
+  have P := grad_dot a b c d e 1 0 ha hdet
+  by_contra hn; push Not at hn
+  have h1 := mul_pos_of_neg_of_neg ht0 (sub_neg.mpr hn)
+  have h2 := mul_nonneg (neg_nonneg.mpr h) (sub_nonneg.mpr hst)
+  nlinarith
+theorem r2_V1 (a b c d e : K) (ha : 0 < a) (hdet : 0 < a * c - b * b)
+    (ht0 : 0 ≤ b * d - a * e) (hst : a * c - b * b < b * e - c * d + (b * d - a * e)) (h : a + d ≤ b + e) : a + d ≤ 0 := by
+  have P := grad_dot a b c d e 1 0 ha hdet
+  by_contra hn; push Not at hn
+  have h1 := mul_pos hn (sub_pos.mpr hst)                         -- (a+d) * ((s0+t0) - det) > 0
+  have h2 := mul_nonneg (sub_nonneg.mpr h) ht0                    -- ((b+e)-(a+d)) * t0 ≥ 0
+  nlinarith
+theorem r6_V2 (a b c d e : K) (ha : 0 < a) (hdet : 0 < a * c - b * b)
+    (hs0 : 0 ≤ b * e - c * d) (hst : a * c - b * b < b * e - c * d + (b * d - a * e)) (h : c + e ≤ b + d) : c + e ≤ 0 := by
+  have P := grad_dot a b c d e 0 1 ha hdet
+  by_contra hn; push Not at hn
+  have h1 := mul_pos hn (sub_pos.mpr hst)
+  have h2 := mul_nonneg (sub_nonneg.mpr h) hs0
+  nlinarith
+
+/-- region 4 (both unconstrained parameters negative) with `d < 0`, `-d ≥ a`: the minimiser is the vertex `(1,0)` -/
+theorem region4_V1 (a b c d e : K) (ha : 0 < a) (hdet : 0 < a * c - b * b)
+    (hs0 : b * e - c * d < 0) (ht0 : b * d - a * e < 0) (hd : d < 0) (h : a ≤ -d) : a + d ≤ b + e := by
+  have hb : b ≤ 0 := by
+    by_contra hb; push Not at hb
+    have h1 := mul_neg_of_pos_of_neg ha hs0
+    have h2 := mul_neg_of_pos_of_neg hb ht0
+    have h3 := mul_pos (neg_pos.mpr hd) hdet
+    nlinarith
+  have h4 : 0 ≤ (a + d) * (b - a) := mul_nonneg_of_nonpos_of_nonpos (by linarith) (by linarith)
+  by_contra hn; push Not at hn
+  have h5 := mul_pos ha (sub_pos.mpr hn)
+  nlinarith
+
+/-! the seven regions of the code, as separate pieces of `stOf` -/
+def clampT (c e : K) : K := if (!decide (e < 0)) = true then 0 else (if (!decide (-e < c)) = true then 1 else -e / c)
+def clampS (a d : K) : K := if (!decide (d < 0)) = true then 0 else (if (!decide (-d < a)) = true then 1 else -d / a)
+def st4 (a c d e : K) : K × K := if d < 0 then ((if (!decide (-d < a)) = true then 1 else -d / a), 0) else (0, clampT c e)
+def st2 (a b c d e : K) : K × K :=
+  if b + d < c + e then
+    ((if (!decide (c + e - (b + d) < a - 2 * b + c)) = true then 1 else (c + e - (b + d)) / (a - 2 * b + c)),
+     1 - (if (!decide (c + e - (b + d) < a - 2 * b + c)) = true then 1 else (c + e - (b + d)) / (a - 2 * b + c)))
+  else (0, if (!decide (0 < c + e)) = true then 1 else (if (!decide (e < 0)) = true then 0 else -e / c))
+def st6 (a b c d e : K) : K × K :=
+  if b + e < a + d then
+    (1 - (if (!decide (a + d - (b + e) < a - 2 * b + c)) = true then 1 else (a + d - (b + e)) / (a - 2 * b + c)),
+     (if (!decide (a + d - (b + e) < a - 2 * b + c)) = true then 1 else (a + d - (b + e)) / (a - 2 * b + c)))
+  else ((if (!decide (0 < a + d)) = true then 1 else (if (!decide (d < 0)) = true then 0 else -d / a)), 0)
+def st1 (a b c d e : K) : K × K :=
+  ((if (!decide (0 < c + e - b - d)) = true then 0 else (if (!decide (c + e - b - d < a - 2 * b + c)) = true then 1 else (c + e - b - d) / (a - 2 * b + c))),
+   1 - (if (!decide (0 < c + e - b - d)) = true then 0 else (if (!decide (c + e - b - d < a - 2 * b + c)) = true then 1 else (c + e - b - d) / (a - 2 * b + c))))
+
+theorem stOf_regions (a b c d e : K) : stOf a b c d e =
+    if (!decide (a * c - b * b < b * e - c * d + (b * d - a * e))) = true then
+      (if b * e - c * d < 0 then (if b * d - a * e < 0 then st4 a c d e else (0, clampT c e))
+       else if b * d - a * e < 0 then (clampS a d, 0)
+       else ((b * e - c * d) * (1 / (a * c - b * b)), (b * d - a * e) * (1 / (a * c - b * b))))
+    else (if b * e - c * d < 0 then st2 a b c d e else if b * d - a * e < 0 then st6 a b c d e else st1 a b c d e) := rfl
+
+section regions
+variable (a b c d e : K) (ha : 0 < a) (hc : 0 < c) (hdet : 0 < a * c - b * b)
+include ha hc hdet
+
+theorem kkt_r4 (hA : b * e - c * d + (b * d - a * e) ≤ a * c - b * b) (hs : b * e - c * d < 0) (ht : b * d - a * e < 0) :
+    KKT a b c d e (st4 a c d e).1 (st4 a c d e).2 := by
+  unfold st4 clampT
+  split_ifs <;> simp only [not_le, not_lt, Bool.not_eq_true', decide_eq_false_iff_not] at * <;>
+    first
+      | (refine kkt_V0 a b c d e ?_ ?_ <;> first | assumption | linarith)
+      | (refine kkt_V1 a b c d e ?_ ?_ <;> first | linarith | (exact r5_V1 a b c d e ha hdet ht hA (by linarith)))
+      | (refine kkt_V2 a b c d e ?_ ?_ <;> first | linarith | (exact r3_V2 a b c d e ha hdet hs hA (by linarith)))
+      | (refine kkt_Es0 a b c d e _ hc ?_ ?_ <;> first | (field_simp; done) | linarith)
+      | (refine kkt_Et0 a b c d e _ ha ?_ ?_ <;> first | (field_simp; done) | linarith)
+
+theorem kkt_r3 (hA : b * e - c * d + (b * d - a * e) ≤ a * c - b * b) (hs : b * e - c * d < 0) (ht : 0 ≤ b * d - a * e) :
+    KKT a b c d e 0 (clampT c e) := by
+  unfold clampT
+  split_ifs <;> simp only [not_le, not_lt, Bool.not_eq_true', decide_eq_false_iff_not] at * <;>
+    first
+      | (refine kkt_V0 a b c d e ?_ ?_ <;> first | assumption | (exact r3_V0 a b c d e ha hdet hs ht (by assumption)))
+      | (refine kkt_V2 a b c d e ?_ ?_ <;> first | linarith | (exact r3_V2 a b c d e ha hdet hs hA (by linarith)))
+      | (refine kkt_Es0 a b c d e _ hc ?_ ?_ <;> first | (field_simp; done) | linarith)
+
+theorem kkt_r5 (hA : b * e - c * d + (b * d - a * e) ≤ a * c - b * b) (hs : 0 ≤ b * e - c * d) (ht : b * d - a * e < 0) :
+    KKT a b c d e (clampS a d) 0 := by
+  unfold clampS
+  split_ifs <;> simp only [not_le, not_lt, Bool.not_eq_true', decide_eq_false_iff_not] at * <;>
+    first
+      | (refine kkt_V0 a b c d e ?_ ?_ <;> first | assumption | (exact r5_V0 a b c d e ha hdet ht hs (by assumption)))
+      | (refine kkt_V1 a b c d e ?_ ?_ <;> first | linarith | (exact r5_V1 a b c d e ha hdet ht hA (by linarith)))
+      | (refine kkt_Et0 a b c d e _ ha ?_ ?_ <;> first | (field_simp; done) | linarith)
+
+theorem kkt_r2 (hB : a * c - b * b < b * e - c * d + (b * d - a * e)) (hs : b * e - c * d < 0) :
+    KKT a b c d e (st2 a b c d e).1 (st2 a b c d e).2 := by
+  have hden : 0 < a - 2 * b + c := by nlinarith [mul_self_nonneg (a - b), mul_self_nonneg (c - b), mul_self_nonneg (a - c)]
+  have ht : 0 ≤ b * d - a * e := by linarith
+  unfold st2
+  split_ifs <;> simp only [not_le, not_lt, Bool.not_eq_true', decide_eq_false_iff_not] at * <;>
+    first
+      | (refine kkt_V0 a b c d e ?_ ?_ <;> first | assumption | (exact r3_V0 a b c d e ha hdet hs ht (by assumption)))
+      | (rw [sub_self]; refine kkt_V1 a b c d e ?_ ?_ <;> first | linarith | (exact r2_V1 a b c d e ha hdet ht hB (by linarith)))
+      | (refine kkt_V2 a b c d e ?_ ?_ <;> linarith)
+      | (refine kkt_Es0 a b c d e _ hc ?_ ?_ <;> first | (field_simp; done) | linarith)
+      | (refine kkt_Ehyp a b c d e _ _ hden ?_ ?_ ?_ <;> first | (ring; done) | (field_simp; done) | (field_simp; ring; done) | linarith)
+
+theorem kkt_r6 (hB : a * c - b * b < b * e - c * d + (b * d - a * e)) (hs : 0 ≤ b * e - c * d) (ht : b * d - a * e < 0) :
+    KKT a b c d e (st6 a b c d e).1 (st6 a b c d e).2 := by
+  have hden : 0 < a - 2 * b + c := by nlinarith [mul_self_nonneg (a - b), mul_self_nonneg (c - b), mul_self_nonneg (a - c)]
+  unfold st6
+  split_ifs <;> simp only [not_le, not_lt, Bool.not_eq_true', decide_eq_false_iff_not] at * <;>
+    first
+      | (refine kkt_V0 a b c d e ?_ ?_ <;> first | assumption | (exact r5_V0 a b c d e ha hdet ht hs (by assumption)))
+      | (refine kkt_V1 a b c d e ?_ ?_ <;> linarith)
+      | (rw [sub_self]; refine kkt_V2 a b c d e ?_ ?_ <;> first | linarith | (exact r6_V2 a b c d e ha hdet hs hB (by linarith)))
+      | (refine kkt_Et0 a b c d e _ ha ?_ ?_ <;> first | (field_simp; done) | linarith)
+      | (refine kkt_Ehyp a b c d e _ _ hden ?_ ?_ ?_ <;> first | (ring; done) | (field_simp; done) | (field_simp; ring; done) | linarith)
+
+theorem kkt_r1 (hB : a * c - b * b < b * e - c * d + (b * d - a * e)) (hs : 0 ≤ b * e - c * d) (ht : 0 ≤ b * d - a * e) :
+    KKT a b c d e (st1 a b c d e).1 (st1 a b c d e).2 := by
+  have hden : 0 < a - 2 * b + c := by nlinarith [mul_self_nonneg (a - b), mul_self_nonneg (c - b), mul_self_nonneg (a - c)]
+  unfold st1
+  split_ifs <;> simp only [not_le, not_lt, Bool.not_eq_true', decide_eq_false_iff_not] at * <;>
+    first
+      | (rw [sub_self]; refine kkt_V1 a b c d e ?_ ?_ <;> first | linarith | (exact r2_V1 a b c d e ha hdet ht hB (by linarith)))
+      | (rw [sub_zero]; refine kkt_V2 a b c d e ?_ ?_ <;> first | linarith | (exact r6_V2 a b c d e ha hdet hs hB (by linarith)))
+      | (refine kkt_Ehyp a b c d e _ _ hden ?_ ?_ ?_ <;> first | (ring; done) | (field_simp; done) | (field_simp; ring; done) | linarith)
+
+/-- **KKT for the code's `(s,t)`** in all seven regions -/
+theorem stOf_kkt : KKT a b c d e (stOf a b c d e).1 (stOf a b c d e).2 := by
+  rw [stOf_regions]
+  split_ifs with h1 h2 h3 h4 h5 h6 <;> simp only [not_le, not_lt, Bool.not_eq_true', decide_eq_false_iff_not] at *
+  · exact kkt_r4 a b c d e ha hc hdet h1 h2 h3
+  · exact kkt_r3 a b c d e ha hc hdet h1 h2 h3
+  · exact kkt_r5 a b c d e ha hc hdet h1 h2 h4
+  · exact kkt_I a b c d e _ (mul_one_div_cancel (ne_of_gt hdet))
+  · exact kkt_r2 a b c d e ha hc hdet h1 h5
+  · exact kkt_r6 a b c d e ha hc hdet h1 h5 h6
+  · exact kkt_r1 a b c d e ha hc hdet h1 h5 h6
+end regions
+
+/-- the squared distance from `p` to `v1 + s e0 + t e1`, up to the constant `|v1 − p|²` -/
+def Q (a b c d e s t : K) : K := a * s * s + 2 * b * s * t + c * t * t + 2 * d * s + 2 * e * t
+
+/-- KKT at `(s,t)` + convexity ⇒ `(s,t)` minimises `Q` over the triangle -/
+theorem Q_min_of_KKT (a b c d e s t : K) (ha : 0 < a) (hdet : 0 < a * c - b * b) (hk : KKT a b c d e s t)
+    (s' t' : K) (h0 : 0 ≤ s') (h1 : 0 ≤ t') (h2 : s' + t' ≤ 1) : Q a b c d e s t ≤ Q a b c d e s' t' := by
+  obtain ⟨k0, k1, k2⟩ := hk
+  have hG : 0 ≤ (a * s + b * t + d) * (s' - s) + (b * s + c * t + e) * (t' - t) := by
+    have e1 : (a * s + b * t + d) * (s' - s) + (b * s + c * t + e) * (t' - t)
+        = (1 - s' - t') * (-((a * s + b * t + d) * s) - (b * s + c * t + e) * t)
+          + s' * ((a * s + b * t + d) * (1 - s) - (b * s + c * t + e) * t)
+          + t' * (-((a * s + b * t + d) * s) + (b * s + c * t + e) * (1 - t)) := by ring
+    rw [e1]
+    exact add_nonneg (add_nonneg (mul_nonneg (by linarith) k0) (mul_nonneg h0 k1)) (mul_nonneg h1 k2)
+  have hq := quad_form_nonneg a b c (s' - s) (t' - t) ha hdet
+  have e2 : Q a b c d e s' t' - Q a b c d e s t
+      = 2 * ((a * s + b * t + d) * (s' - s) + (b * s + c * t + e) * (t' - t))
+        + (a * (s' - s) * (s' - s) + 2 * b * (s' - s) * (t' - t) + c * (t' - t) * (t' - t)) := by unfold Q; ring
+  linarith
+
+omit [LinearOrder K] [IsStrictOrderedRing K] in
+theorem normSq_tri (v1 v2 v3 p : V3 K) (s t : K) :
+    V3.normSq (V3.sub (V3.add v1 (V3.add (V3.smul s (V3.sub v2 v1)) (V3.smul t (V3.sub v3 v1)))) p)
+      = Q (V3.normSq (V3.sub v2 v1)) (V3.dot (V3.sub v2 v1) (V3.sub v3 v1)) (V3.normSq (V3.sub v3 v1))
+          (V3.dot (V3.sub v2 v1) (V3.sub v1 p)) (V3.dot (V3.sub v3 v1) (V3.sub v1 p)) s t + V3.normSq (V3.sub v1 p) := by
+  simp only [Q, V3.normSq, V3.dot, V3.sub, V3.add, V3.smul]
+  ring
+
+/-- **`findNearestPointToFace` returns the closest point of the triangle** (non-degenerate face): no point
+`v1 + s' e0 + t' e1` with `s', t' ≥ 0`, `s' + t' ≤ 1` is nearer to `p` than the returned one -/
+theorem triNearest_minimal (v1 v2 v3 p : V3 K)
+    (hdet : 0 < V3.normSq (V3.sub v2 v1) * V3.normSq (V3.sub v3 v1) - V3.dot (V3.sub v2 v1) (V3.sub v3 v1) * V3.dot (V3.sub v2 v1) (V3.sub v3 v1))
+    (s' t' : K) (h0 : 0 ≤ s') (h1 : 0 ≤ t') (h2 : s' + t' ≤ 1) :
+    triDist2 v1 v2 v3 p ≤ V3.normSq (V3.sub (V3.add v1 (V3.add (V3.smul s' (V3.sub v2 v1)) (V3.smul t' (V3.sub v3 v1)))) p) := by
+  have ha0 := normSq_nonneg (V3.sub v2 v1)
+  have hc0 := normSq_nonneg (V3.sub v3 v1)
+  have ha : 0 < V3.normSq (V3.sub v2 v1) := by
+    rcases lt_or_eq_of_le ha0 with h | h
+    · exact h
+    · exfalso; rw [← h] at hdet; nlinarith [mul_self_nonneg (V3.dot (V3.sub v2 v1) (V3.sub v3 v1))]
+  have hc : 0 < V3.normSq (V3.sub v3 v1) := by
+    rcases lt_or_eq_of_le hc0 with h | h
+    · exact h
+    · exfalso; rw [← h] at hdet; nlinarith [mul_self_nonneg (V3.dot (V3.sub v2 v1) (V3.sub v3 v1))]
+  have hk := stOf_kkt _ _ _ (V3.dot (V3.sub v2 v1) (V3.sub v1 p)) (V3.dot (V3.sub v3 v1) (V3.sub v1 p)) ha hc hdet
+  have hpt : (triNearest v1 v2 v3 p).1 = V3.add v1 (V3.add
+      (V3.smul (stOf (V3.normSq (V3.sub v2 v1)) (V3.dot (V3.sub v2 v1) (V3.sub v3 v1)) (V3.normSq (V3.sub v3 v1))
+        (V3.dot (V3.sub v2 v1) (V3.sub v1 p)) (V3.dot (V3.sub v3 v1) (V3.sub v1 p))).1 (V3.sub v2 v1))
+      (V3.smul (stOf (V3.normSq (V3.sub v2 v1)) (V3.dot (V3.sub v2 v1) (V3.sub v3 v1)) (V3.normSq (V3.sub v3 v1))
+        (V3.dot (V3.sub v2 v1) (V3.sub v1 p)) (V3.dot (V3.sub v3 v1) (V3.sub v1 p))).2 (V3.sub v3 v1))) := rfl
+  unfold triDist2
+  rw [hpt, normSq_tri, normSq_tri]
+  have := Q_min_of_KKT _ _ _ _ _ _ _ ha hdet hk s' t' h0 h1 h2
+  linarith
+
+/-- the same for a point of the face given by barycentric weights -/
+theorem triNearest_minimal_hull (v1 v2 v3 p : V3 K)
+    (hdet : 0 < V3.normSq (V3.sub v2 v1) * V3.normSq (V3.sub v3 v1) - V3.dot (V3.sub v2 v1) (V3.sub v3 v1) * V3.dot (V3.sub v2 v1) (V3.sub v3 v1))
+    (u s t : K) (hu : 0 ≤ u) (hs : 0 ≤ s) (ht : 0 ≤ t) (hsum : u + s + t = 1) :
+    triDist2 v1 v2 v3 p ≤ V3.normSq (V3.sub (V3.add (V3.smul u v1) (V3.add (V3.smul s v2) (V3.smul t v3))) p) := by
+  have e : V3.add (V3.smul u v1) (V3.add (V3.smul s v2) (V3.smul t v3))
+      = V3.add v1 (V3.add (V3.smul s (V3.sub v2 v1)) (V3.smul t (V3.sub v3 v1))) := by
+    have hu' : u = 1 - s - t := by linarith
+    subst hu'
+    simp only [V3.add, V3.smul, V3.sub]; apply V3.ext' <;> (simp only; ring)
+  rw [e]
+  exact triNearest_minimal v1 v2 v3 p hdet s t hs ht (by linarith)
+end tmin
+
+section closest
+variable {K : Type} [Field K] [LinearOrder K] [IsStrictOrderedRing K]
+/-- **the face found by the mesh query holds the nearest point of the whole surface**: composition of
+`mesh_nearest_eq_bruteforce` (descent = brute force over faces) and `triNearest_minimal_hull` (per-face routine = closest
+point of the face): no point of any face of the mesh is nearer to `p` than the point returned for the reported face -/
+theorem mesh_nearest_is_closest (tri : Nat → V3 K × V3 K × V3 K) (tree : XT K) (p : V3 K)
+    (hv : XT.Valid tri tree) (hnd : ∀ f ∈ tree.faces, NonDeg (tri f)) (f : Nat) (hf : meshNearest tri tree p = some f) :
+    f ∈ tree.faces ∧ ∀ g ∈ tree.faces, ∀ u s t : K, 0 ≤ u → 0 ≤ s → 0 ≤ t → u + s + t = 1 →
+      triDist2 (tri f).1 (tri f).2.1 (tri f).2.2 p
+        ≤ V3.normSq (V3.sub (V3.add (V3.smul u (tri g).1) (V3.add (V3.smul s (tri g).2.1) (V3.smul t (tri g).2.2))) p) := by
+  have h := mesh_nearest_eq_bruteforce tri tree p hv hnd
+  rw [hf] at h
+  obtain ⟨hmem, k, hk, hmin⟩ := h
+  simp only [Option.some.injEq] at hk
+  refine ⟨hmem, ?_⟩
+  intro g hg u s t hu hs ht hsum
+  have h1 := hmin g hg _ rfl
+  have h2 := triNearest_minimal_hull (tri g).1 (tri g).2.1 (tri g).2.2 p (hnd g hg) u s t hu hs ht hsum
+  rw [hk]; exact le_trans h1 h2
+end closest
+
 /-! ## the ray query of a mesh over its real OBB tree = brute force over all faces -/
 section rayq
 variable {K : Type} [Field K] [LinearOrder K] [IsStrictOrderedRing K]
